@@ -33,6 +33,15 @@ theorem C09_default_lifetime_nonneg : 0 ≤ Gen.IdpDefaults.defaults.lifetime.se
 /-- The two NameID formats `get_nameid` treats specially are different formats. -/
 theorem C09_special_formats_distinct : Gen.IdpDefaults.defaults.persistent ≠ Gen.IdpDefaults.defaults.email := by decide
 
+/-- The status used when no `status=` is given is the Success the SP model tests for. -/
+theorem C09_default_status_success : Gen.IdpDefaults.defaults.statusSuccess = successUri := by decide
+
+/-- The three confirmation-method URIs the model distinguishes are pairwise different. -/
+theorem C09_methods_distinct :
+    Gen.IdpDefaults.defaults.bearer ≠ Gen.IdpDefaults.defaults.holderOfKey ∧
+    Gen.IdpDefaults.defaults.bearer ≠ Gen.IdpDefaults.defaults.senderVouches ∧
+    Gen.IdpDefaults.defaults.holderOfKey ≠ Gen.IdpDefaults.defaults.senderVouches := by decide
+
 /-! ### argument > configuration > default -/
 
 theorem C09_precedence (arg cfg : Option Bool) (dflt : Bool) :
@@ -95,13 +104,21 @@ theorem C09_audience {d : Defaults} {cfg : Cfg} {a : Args W} {r : Issued W} (h :
   simp only [responseOf, List.mem_singleton] at hx
   subst hx; rfl
 
-/-- One bearer confirmation: Recipient = consumer URL, InResponseTo = request ID, NotOnOrAfter = issue
-    time + the policy lifetime for the requester; the Response is addressed to the same URL and
-    answers the same request. -/
+/-- Exactly one confirmation.  Its NotOnOrAfter is ALWAYS issue time + the policy lifetime for the
+    requester (a preset one is overwritten); Method / Recipient / InResponseTo are bearer / consumer URL /
+    request ID unless the caller's `farg=` tree presets that very field, in which case the preset value
+    is used (`update_farg`: each is filled in iff not preset).  The Response answers the same request and,
+    for a non-empty URL, is addressed to it. -/
 theorem C09_confirmation {d : Defaults} {cfg : Cfg} {a : Args W} {r : Issued W} (h : create d cfg a = .ok r) :
     r.inResponseTo = some a.inResponseTo ∧ (a.destination ≠ "" → r.destination = some a.destination) ∧
-    ∀ x ∈ r.assertions, x.confs = [{ method := .bearer, recipient := some a.destination, irt := some a.inResponseTo,
-                                     nb := none, nooa := some (a.now + lifetimeOf d cfg a) }] := by
+    ∀ x ∈ r.assertions, ∃ c, x.confs = [c] ∧
+      c.nooa = some (a.now + lifetimeOf d cfg a) ∧
+      (a.farg.bind (·.method) = none → c.method = .bearer) ∧
+      (a.farg.bind (·.recipient) = none → c.recipient = some a.destination) ∧
+      (a.farg.bind (·.irt) = none → c.irt = some a.inResponseTo) ∧
+      (∀ m, a.farg.bind (·.method) = some m → c.method = methodOf d m) ∧
+      (∀ v, a.farg.bind (·.recipient) = some v → c.recipient = some v) ∧
+      (∀ v, a.farg.bind (·.irt) = some v → c.irt = some v) := by
   obtain ⟨nid, _, hr, _⟩ := create_ok_inv h
   subst hr
   refine ⟨rfl, ?_, ?_⟩
@@ -109,7 +126,23 @@ theorem C09_confirmation {d : Defaults} {cfg : Cfg} {a : Args W} {r : Issued W} 
   · intro x hx
     simp only [responseOf, List.mem_singleton] at hx
     subst hx
-    simp only [assertionOf, lifetimeFor_eq]
+    refine ⟨_, rfl, ?_⟩
+    simp only [confOf, lifetimeFor_eq]
+    cases hf : a.farg with
+    | none => simp
+    | some f => cases hm : f.method <;> cases hr : f.recipient <;> cases hi : f.irt <;> simp [hm, hr, hi]
+
+/-- Without `farg=` (or with one that presets none of the three): THE bearer confirmation of the property. -/
+theorem C09_confirmation_default {d : Defaults} {cfg : Cfg} {a : Args W} {r : Issued W} (h : create d cfg a = .ok r)
+    (hf : a.farg = none) :
+    ∀ x ∈ r.assertions, x.confs = [{ method := .bearer, recipient := some a.destination, irt := some a.inResponseTo,
+                                     nb := none, nooa := some (a.now + lifetimeOf d cfg a) }] := by
+  obtain ⟨nid, _, hr, _⟩ := create_ok_inv h
+  subst hr
+  intro x hx
+  simp only [responseOf, List.mem_singleton] at hx
+  subst hx
+  simp [assertionOf, confOf, hf, lifetimeFor_eq]
 
 /-- Issue instant = clock; Conditions window = [issue time, issue time + policy lifetime for the requester). -/
 theorem C09_validity {d : Defaults} {cfg : Cfg} {a : Args W} {r : Issued W} (h : create d cfg a = .ok r) :
@@ -161,7 +194,7 @@ theorem C09_signatures {d : Defaults} {cfg : Cfg} {a : Args W} {r : Issued W} (h
 /-- A Response signature is only ever made with allow-listed algorithms. -/
 theorem C09_response_signature_allowed {d : Defaults} {cfg : Cfg} {a : Args W} {r : Issued W} {i : SigInfo}
     (h : create d cfg a = .ok r) (hs : r.sig = some i) : i.sigAlg ∈ d.sigAllowed ∧ i.digestAlg ∈ d.digestAllowed := by
-  obtain ⟨nid, _, hr, hallow⟩ := create_ok_inv h
+  obtain ⟨nid, _, hr, _, hallow⟩ := create_ok_inv h
   have hsig := (C09_signatures h).1
   rw [hs] at hsig
   cases hres : resolve a.signResponse cfg.signResponse d.signResponse with
@@ -172,16 +205,32 @@ theorem C09_response_signature_allowed {d : Defaults} {cfg : Cfg} {a : Args W} {
     rw [hsig]
     exact ⟨by simpa using h1, by simpa using h2⟩
 
-/-- No Response is created only when an e-mail identifier is due but no domain is configured, or a
+/-- No Response is created only when an e-mail identifier is due but no domain is configured, the
+    caller's `farg=` tree is malformed or presets holder-of-key (no key_info is ever supplied), or a
     Response signature is demanded with an algorithm outside the allow-lists. -/
 theorem C09_refusal {d : Defaults} {cfg : Cfg} {a : Args W} {e : Refusal} (h : create d cfg a = .error e) :
     (e = .emailNoDomain ∧ a.nameId = none ∧ truthy cfg.domain = false) ∨
+    (∃ f, a.farg = some f ∧ (f.malformed = true ∨ f.method = some d.holderOfKey)) ∨
     (resolve a.signResponse cfg.signResponse d.signResponse = true ∧
       (d.sigAllowed.contains (sigInfo d cfg a).sigAlg = false ∨ d.digestAllowed.contains (sigInfo d cfg a).digestAlg = false)) := by
-  rcases create_error_inv h with hn | ⟨hs, halg⟩
+  rcases create_error_inv h with hn | hfa | ⟨hs, halg⟩
   · obtain ⟨he, hnone, _, _, hdom⟩ := chooseNameId_error_inv hn
     exact Or.inl ⟨he, hnone, hdom⟩
-  · right
+  · right; left
+    unfold fargRefusal at hfa
+    cases hf : a.farg with
+    | none => simp [hf] at hfa
+    | some f =>
+      refine ⟨f, rfl, ?_⟩
+      simp only [hf] at hfa
+      by_cases hm : f.malformed = true
+      · exact Or.inl hm
+      · right
+        simp only [hm, if_false] at hfa
+        by_cases hk : (f.method == some d.holderOfKey) = true
+        · simpa using hk
+        · simp [hk] at hfa
+  · right; right
     refine ⟨hs, ?_⟩
     rcases halg with ⟨_, h1⟩ | ⟨_, h2⟩
     · exact Or.inl h1
@@ -228,8 +277,9 @@ theorem C09_nameid_format_partial {d : Defaults} {cfg : Cfg} {a : Args W} {r : I
 
 /-- FIRST SENTENCE, in one statement: every Response `create` produces names the provider as issuer
     (Response and its single assertion), carries exactly one AudienceRestriction with the requester
-    as only audience, exactly one confirmation — bearer, Recipient = consumer URL, InResponseTo =
-    request ID, NotOnOrAfter = issue time + policy lifetime for the requester —, the same expiry on
+    as only audience, exactly one confirmation — NotOnOrAfter = issue time + policy lifetime for the
+    requester; bearer, Recipient = consumer URL, InResponseTo = request ID, each unless the caller's
+    `farg=` presets that field —, the same expiry on
     the Conditions (which start at the issue time), signatures on Response / assertion exactly as
     argument > configuration > default resolve, with the algorithms argument > configuration >
     default, and (when no stored identifier is reused for a request that names no format, see
@@ -240,15 +290,18 @@ theorem C09_scoping {d : Defaults} {cfg : Cfg} {a : Args W} {r : Issued W} (h : 
     ∃ x, r.assertions = [x] ∧
       x.issuer = some cfg.entityId ∧
       x.audiences = [[a.spEntityId]] ∧
-      x.confs = [{ method := .bearer, recipient := some a.destination, irt := some a.inResponseTo,
-                   nb := none, nooa := some (a.now + lifetimeOf d cfg a) }] ∧
+      (∃ c, x.confs = [c] ∧ c.nooa = some (a.now + lifetimeOf d cfg a) ∧
+        (a.farg.bind (·.method) = none → c.method = .bearer) ∧
+        (a.farg.bind (·.recipient) = none → c.recipient = some a.destination) ∧
+        (a.farg.bind (·.irt) = none → c.irt = some a.inResponseTo)) ∧
       x.condNb = some a.now ∧ x.condNooa = some (a.now + lifetimeOf d cfg a) ∧
       x.sig = (if resolve a.signAssertion cfg.signAssertion d.signAssertion then some (sigInfo d cfg a) else none) ∧
       (noStoredReuse a = true → formatOk d cfg a x.nameId = true) := by
   obtain ⟨x, hx⟩ := C09_one_assertion h
   have hmem : x ∈ r.assertions := by rw [hx]; exact List.mem_singleton.mpr rfl
   refine ⟨(C09_issuer h).1, (C09_validity h).1, (C09_confirmation h).1, (C09_signatures h).1, x, hx,
-    (C09_issuer h).2 x hmem, C09_audience h x hmem, (C09_confirmation h).2.2 x hmem,
+    (C09_issuer h).2 x hmem, C09_audience h x hmem,
+    (by obtain ⟨c, hc, h1, h2, h3, h4, _⟩ := (C09_confirmation h).2.2 x hmem; exact ⟨c, hc, h1, h2, h3, h4⟩),
     ((C09_validity h).2 x hmem).1, ((C09_validity h).2 x hmem).2, (C09_signatures h).2 x hmem,
     fun hside => C09_nameid_format_partial h hside x hmem⟩
 
@@ -258,7 +311,8 @@ theorem C09_scoping {d : Defaults} {cfg : Cfg} {a : Args W} {r : Issued W} (h : 
 theorem C09_nameid_format_counterexample : ¬ C09_nameid_format_full := by
   intro hfull
   let d : Defaults := { signResponse := false, signAssertion := false, sigAlg := "s", digestAlg := "d", sigAllowed := ["s"],
-                        digestAllowed := ["d"], lifetime := { hours := 1 }, nameidFormat := "t", persistent := "p", email := "e" }
+                        digestAllowed := ["d"], lifetime := { hours := 1 }, nameidFormat := "t", persistent := "p", email := "e",
+                        bearer := "b", holderOfKey := "h", senderVouches := "v", statusSuccess := "ok" }
   let cfg : Cfg := { entityId := "idp", policy := some [("default", some { nameidFormat := some "p" })] }
   let a : Args Unit := { inResponseTo := "r2", destination := "u", spEntityId := "sp", userid := "u1",
                          stored := [{ format := some "t", spNameQualifier := some "sp", nameQualifier := some "idp", text := "T1" }],
@@ -296,7 +350,13 @@ theorem C09_core_meets_spec (d : Defaults) (cfg : Cfg) (a : Args W)
       cases resolve a.signAssertion cfg.signAssertion false
       · rfl
       · simp [sigAsDemanded, sigInfo, demandedAlg_all]
-    simp only [specCore, responseOf, assertionOf, assertionCoreOk, signaturesOk, confsOk, confOk, lifetimeFor_eq, hsigR, hsigA,
+    have hconf : confsOk a (lifetimeOf d cfg a) [confOf d a (a.now + lifetimeOf d cfg a)] = true := by
+      unfold confsOk confDataOk preset confOf
+      cases hf : a.farg with
+      | none => simp
+      | some f =>
+        cases hm : f.method <;> cases hr : f.recipient <;> cases hi : f.irt <;> simp [hm, hr, hi]
+    simp only [specCore, responseOf, assertionOf, assertionCoreOk, signaturesOk, lifetimeFor_eq, hsigR, hsigA, hconf,
       List.all_cons, List.all_nil, List.length_singleton]
     simp
 
@@ -326,7 +386,7 @@ theorem C09_model_meets_spec (cfg : Cfg) (a : Args W) (hside : noStoredReuse a =
     converters that round-trip the released attributes, exactly those attributes. -/
 theorem C09_end_to_end {L : Type} (d : Defaults) (cfg : Cfg) (a : Args W) (s : SpSide) (r : Issued W)
     (conv : Conv L W) (released : L)
-    (hd : d.signResponse = false ∧ d.signAssertion = false)
+    (hd : d.signResponse = false ∧ d.signAssertion = false) (hst : d.statusSuccess = successUri)
     (hcreate : create d cfg a = .ok r)
     (hpre : e2ePre d cfg a s = true)
     (hround : conv.toLocal a.attrs = released) :
@@ -342,7 +402,7 @@ theorem C09_end_to_end {L : Type} (d : Defaults) (cfg : Cfg) (a : Args W) (s : S
   -- take the precondition apart
   unfold e2ePre at hpre
   simp only [Bool.and_eq_true, Bool.or_eq_true, Bool.not_eq_true', decide_eq_true_eq, bne_iff_ne, ne_eq, beq_iff_eq] at hpre
-  obtain ⟨⟨⟨⟨⟨⟨⟨⟨⟨⟨⟨⟨⟨⟨⟨⟨⟨htrust, hbind⟩, hasync⟩, haudne⟩, haudme⟩, hdestne⟩, hdestmine⟩, hout⟩, hwr⟩, hwa⟩, hwe⟩, hauthn⟩,
+  obtain ⟨⟨⟨⟨⟨⟨⟨⟨⟨⟨⟨⟨⟨⟨⟨⟨⟨⟨htrust, hbind⟩, hasync⟩, hneutral⟩, haudne⟩, haudme⟩, hdestne⟩, hdestmine⟩, hout⟩, hwr⟩, hwa⟩, hwe⟩, hauthn⟩,
     hlife⟩, hprem⟩, hexp⟩, hilow⟩, hihigh⟩, hsess⟩ := hpre
   obtain ⟨cf, hcf⟩ := Option.isSome_iff_exists.mp hout
   obtain ⟨x, hax, hclass⟩ : ∃ x, a.authn = some x ∧ truthy x.classRef = true := by
@@ -382,9 +442,12 @@ theorem C09_end_to_end {L : Type} (d : Defaults) (cfg : Cfg) (a : Args W) (s : S
       sessionOk := by
         intro t ht
         simp only [scopedOf] at ht
-        simpa [ht] using hsess }
+        simpa [ht] using hsess
+      addrOk := by
+        intro ht
+        exact address_neutral hneutral (by simpa [scopedOf] using ht) }
   have hproc := process_scoped hacc
-  rw [← toSp_responseOf hdestne hax hclass] at hproc
+  rw [← toSp_responseOf hdestne hax hclass hneutral hst] at hproc
   refine ⟨{ nameId := some nid.text, issuer := Sp.pyStrip cfg.entityId, cameFrom := some cf,
             notOnOrAfter := expectedExpiry d cfg a, sessionIndex := some a.freshSession, cached := true },
     nid, ?_, ⟨assertionOf d cfg a nid, [], rfl, rfl⟩, rfl, rfl, hcf.symm, rfl, rfl⟩
@@ -396,13 +459,13 @@ theorem C09_end_to_end {L : Type} (d : Defaults) (cfg : Cfg) (a : Args W) (s : S
 /-- `specE2E (model) = true` for all inputs (when no Response is created the checker is `true` by
     definition): the checker the driver evaluates on the real SP's outcome holds of the composed model. -/
 theorem C09_e2e_meets_spec {L : Type} [BEq L] [LawfulBEq L] (d : Defaults) (cfg : Cfg) (a : Args W) (s : SpSide)
-    (conv : Conv L W) (hd : d.signResponse = false ∧ d.signAssertion = false)
+    (conv : Conv L W) (hd : d.signResponse = false ∧ d.signAssertion = false) (hst : d.statusSuccess = successUri)
     (r : Issued W) (hcreate : create d cfg a = .ok r) :
     specE2E d cfg a s (conv.toLocal a.attrs) (.ok r) (some (endToEnd conv s.cfg s.env s.trusts r)) = true := by
   unfold specE2E
   by_cases hpre : e2ePre d cfg a s = true
   · obtain ⟨o, nid, he, ⟨x, rest, hx, hxn⟩, hname, hiss, hcf, hexp, _⟩ :=
-      C09_end_to_end d cfg a s r conv (conv.toLocal a.attrs) hd hcreate hpre rfl
+      C09_end_to_end d cfg a s r conv (conv.toLocal a.attrs) hd hst hcreate hpre rfl
     simp only [hpre, he, hx, hxn, hname, hiss, hcf, hexp]
     simp
   · simp [hpre]
@@ -412,7 +475,8 @@ theorem C09_e2e_meets_spec {L : Type} [BEq L] [LawfulBEq L] (d : Defaults) (cfg 
 private def exD : Defaults :=
   { signResponse := false, signAssertion := false, sigAlg := "rsa-sha1", digestAlg := "sha1",
     sigAllowed := ["rsa-sha1", "rsa-sha256"], digestAllowed := ["sha1", "sha256"],
-    lifetime := { hours := 1 }, nameidFormat := "transient", persistent := "persistent", email := "email" }
+    lifetime := { hours := 1 }, nameidFormat := "transient", persistent := "persistent", email := "email",
+    bearer := "bearer", holderOfKey := "hok", senderVouches := "sv", statusSuccess := successUri }
 private def exCfg : Cfg :=
   { entityId := "idp", signAssertion := some true,
     policy := some [("sp", some { lifetime := some { minutes := 5 }, nameidFormat := some "persistent" }),
@@ -448,6 +512,15 @@ example : (match create exD exCfg { exArgs with signAlg := some "rsa-md5" } with
            | .error e => some e | .ok _ => none) = some .sigAlgNotAllowed := by decide
 example : (match create exD exCfg { exArgs with nameIdPolicy := some { format := some "email" } } with
            | .error e => some e | .ok _ => none) = some .emailNoDomain := by decide
+-- a caller's tree that presets only the Address (or only the bearer Method) leaves the precondition true and the
+-- Response accepted; presetting another Recipient does not
+example : e2ePre exD exCfg { exArgs with farg := some { address := some "192.0.2.7" } } exSide = true := by decide
+example : (match create exD exCfg { exArgs with farg := some { method := some "bearer" } } with
+           | .ok r => (Sp.process exSide.cfg exSide.env (toSp true r)).isIdentity
+           | .error _ => false) = true := by decide
+example : e2ePre exD exCfg { exArgs with farg := some { recipient := some "https://else/acs" } } exSide = false := by decide
+example : (match create exD exCfg { exArgs with farg := some { method := some "hok" } } with
+           | .error e => some e | .ok _ => none) = some .hokNoKeyInfo := by decide
 -- the side condition of the partial format theorem is satisfiable and not trivial
 example : noStoredReuse exArgs = true := by decide
 example : noStoredReuse { exArgs with stored := [{ format := some "transient", spNameQualifier := some "sp", text := "T" }] } = false := by
